@@ -189,8 +189,8 @@ func (e *Engine) readContractFile(path, pkgKey string) error {
 			if err != nil {
 				return err
 			}
-			if _, dup := e.specs[sf.Name]; dup {
-				return fmt.Errorf("%s: duplicate spec function %s", where, sf.Name)
+			if old, dup := e.specs[sf.Name]; dup && old.Src != sf.Src {
+				return fmt.Errorf("%s: spec function %s redefined differently (first at %s)", where, sf.Name, old.Where)
 			}
 			e.specs[sf.Name] = sf
 			cur = nil
